@@ -608,11 +608,26 @@ def forwarded_entries(repo):
                 continue
             events = []
             pads = set()
+            validated = set()
             for node in ast.walk(fn):
                 if (isinstance(node, ast.Assign) and len(node.targets) == 1
                         and ast.unparse(node.targets[0]) == FORWARD_EXPR and isinstance(node.value, ast.Call)
-                        and ast.unparse(node.value.func) == 'np.pad' and node.value.args
-                        and ast.unparse(node.value.args[0]) == FORWARD_EXPR):
+                        and ast.unparse(node.value.func) == 'np.pad' and node.value.args):
+                    first = node.value.args[0]
+                    src = None            # the load of method_kws[key] feeding the pad, and how
+                    if ast.unparse(first) == FORWARD_EXPR:
+                        src, how = first, 'pad'
+                    elif (isinstance(first, ast.Call) and isinstance(first.func, ast.Name)
+                          and first.func.id in ARRAY_VALIDATORS):
+                        pos = ARRAY_VALIDATORS[first.func.id]
+                        if len(first.args) > pos and ast.unparse(first.args[pos]) == FORWARD_EXPR:
+                            # length-validated first (at least as strict), then padded
+                            src, how = first.args[pos], 'validate'
+                            if sum(FORWARD_EXPR in ast.unparse(a) for a in first.args) \
+                                    + sum(FORWARD_EXPR in ast.unparse(k.value) for k in first.keywords) != 1:
+                                src = None
+                    if src is None:
+                        continue
                     ok = True
                     # constant fill, no other mention of the array in the remaining arguments
                     rest = node.value.args[1:] + [kw.value for kw in node.value.keywords]
@@ -622,11 +637,12 @@ def forwarded_entries(repo):
                                                         and node.value.args[2].value == 'constant'):
                         ok = False
                     if ok:
-                        pads.add(id(node.value.args[0]))
+                        (pads if how == 'pad' else validated).add(id(src))
             for node in ast.walk(fn):
                 if isinstance(node, ast.Subscript) and isinstance(node.ctx, ast.Load) \
                         and ast.unparse(node) == FORWARD_EXPR:
-                    events.append((node.lineno, node.col_offset, 'APad' if id(node) in pads else 'AUse'))
+                    events.append((node.lineno, node.col_offset, 'APad' if id(node) in pads else
+                                   ('AValidate' if id(node) in validated else 'AUse')))
             # keys of the loop
             keys_ok = any(isinstance(n, ast.For) and ast.unparse(n.target) == 'key'
                           and ast.unparse(n.iter) == "('weights', 'alpha')" for n in ast.walk(fn))
@@ -666,8 +682,13 @@ def finite_entries(repo):
                                 and node.func.id in FINITE_CALLEES:
                             fwd = any(kw.arg == 'check_finite' and ast.unparse(kw.value) == want
                                       for kw in node.keywords)
+                            # a pre-validation of a keyword array that is handed on in method_kws to the inner
+                            # registered method, which validates it again with the fitter's check_finite
+                            apos = ARRAY_VALIDATORS.get(node.func.id, 0)
+                            pre = len(node.args) > apos and ast.unparse(node.args[apos]) == FORWARD_EXPR
                             entries.append(f'  {{| c_two_d := {_b(two_d)}; c_module := "{mod}"; c_fn := "{fn.name}"; '
-                                           f'c_callee := "{node.func.id}"; c_forwarded := {_b(fwd)} |}}')
+                                           f'c_callee := "{node.func.id}"; c_forwarded := {_b(fwd)}; '
+                                           f'c_prevalidation := {_b(pre)} |}}')
     return entries
 
 
